@@ -811,6 +811,12 @@ def retry_object(res, pid, wd, thorough=False):
                 f.write(json.dumps({"min": 1000, "max": 60000, "default_strategy": True, "calls": "".join(seq)}) + "\n")
                 n += 1
         f.write(json.dumps({"min": 1, "max": 1000000, "calls": "f" * 25 + "r" + "f" * 3}) + "\n")
+        # delays that are not whole milliseconds (units: microseconds)
+        for (mn, mx) in ((1500, 6000), (500, 4000), (1, 7), (999, 1000001), (2500, 2500)):
+            for ln in range(1, 6):
+                for seq in itertools.product("fdr", repeat=ln):
+                    f.write(json.dumps({"min": mn, "max": mx, "micros": True, "calls": "".join(seq)}) + "\n")
+                    n += 1
     rc, out = vf.sh([vf.harness_bin("e3_retry"), sp, tp], timeout=600)
     if rc != 0:
         raise vf.ToolError("e3_retry failed: " + out[-2000:])
